@@ -322,7 +322,7 @@ fn box_geom(width: f64, height: f64, depth: f64) -> (Vec<Point3>, Vec<[u32; 3]>)
 #[cfg(feature = "verif")]
 pub mod verif_edges {
     pub use super::edges::{
-        edge_key, naive_edges, unique_edges, verif_boundary_loops, verif_identify_edges,
+        edge_key, naive_edges, unique_edges, verif_identify_edges,
     };
 }
 
